@@ -215,7 +215,7 @@ func checkC05(r *harness.Run) harness.Coverage {
 		}
 	})
 	// (3) grammar-generated sentences with hostile leaves x documents of every type
-	hostile := univ.FuncFragment(append(model.FunctionNames(), "nosuch"))
+	hostile := univ.FuncFragment(append(model.FunctionNames(), "nosuch", "zzz", "a_"))
 	hostile.Leaves = append(hostile.Leaves, univ.Tks("`9223372036854775807`", "`-1e999`", "'\xff\xfe'", "'é😀'", "`\"\\ud800\"`", "`[[[[[[1]]]]]]`")...)
 	hostile.Idents = append(hostile.Idents, univ.Tks(`""`, `"\u0000"`)...)
 	hostile.Idents = append(hostile.Idents, model.T(model.QID, "\"\xff\xff\xff\xff\""), model.T(model.QID, "\"\xc3\xc3\xc3\""))
@@ -261,7 +261,7 @@ func checkC05(r *harness.Run) harness.Coverage {
 	}
 	// calls with many arguments (fixed-size argument buffers), every built-in and an unknown name
 	var manyArgs int64
-	for _, fn := range append(model.FunctionNames(), "nosuch") {
+	for _, fn := range append(model.FunctionNames(), "nosuch", "zzz", "a_") {
 		for _, n := range []int{7, 8, 9, 10, 16, 17, 33, 64, 65, 256} {
 			for _, arg := range []string{"a", "`1`", "&a", "@"} {
 				text := fn + "(" + strings.TrimSuffix(strings.Repeat(arg+", ", n), ", ") + ")"
